@@ -1,0 +1,56 @@
+//go:build verif
+
+// Hand-written contracts of the EdDSA signing package (routing / acceptance /
+// update contracts are generated: zz_contracts_proto_verif.go).
+
+package signing
+
+//@ func reverse
+//@   props C02 C06
+//@   requires s != nil
+//@   modifies s[*]
+//@   loop 0 invariant 0 <= i && j == 31 - i && i <= 16
+
+//@ func copyBytes
+//@   props C02 C06
+//@   ensures isnil(aB) <==> result == nil
+//@   ensures result != nil ==> fresh(result)
+//@   loop 0 invariant 0 <= i && i <= diff && len(aB) == aBLen + i && !isnil(aB) && s != nil && fresh(s) && diff == 32 - aBLen && aBLen < 32
+//@   loop 1 invariant 0 <= i && i <= 32 && len(aB) >= 32 && s != nil && fresh(s)
+
+//@ func bigIntToEncodedBytes
+//@   props C02 C06
+//@   ensures result != nil && fresh(result)
+
+//@ func encodedBytesToBigInt
+//@   props C02 C06
+//@   requires s != nil
+//@   ensures result != nil && fresh(result) && val(result) >= 0
+//@   loop 0 invariant 0 <= i && i <= 32 && sCopy != nil && fresh(sCopy)
+
+//@ func (*SignRound3Message).UnmarshalS
+//@   props C02 C06
+//@   requires m != nil
+//@   ensures result != nil && fresh(result) && val(result) == beint(bytes(m.S)) && val(result) >= 0
+
+// finalize.go: a signature is sent on the end channel only after it verified
+// (edwards.Verify) under the group public key this party holds, exactly once.
+//@ define r3slotEd(m) = (!isnil(m) && istype(msgcontent(m), "*eddsa/signing.SignRound3Message") && cast(msgcontent(m), "*eddsa/signing.SignRound3Message") != nil)
+//@ func (*finalization).Start
+//@   props C02 C06
+//@   requires round != nil && round.round3 != nil && round.round3.round2 != nil && round.round3.round2.round1 != nil && round.round3.round2.round1.base != nil
+//@   requires wfParams(round.Parameters) && wfIDs(round.Parameters.parties.partyIDs)
+//@   requires round.temp != nil && round.data != nil && round.key != nil && round.end != nil
+//@   requires round.temp.si != nil && round.temp.r != nil && round.temp.m != nil && 0 <= val(round.temp.m)
+//@   requires [one-slot-per-committee-member] len(round.ok) == len(round.Parameters.parties.partyIDs) && len(round.temp.signRound3Messages) == len(round.Parameters.parties.partyIDs)
+//@   requires [round-3-complete] forall j in 0..len(round.temp.signRound3Messages) :: (j != round.Parameters.partyID.Index ==> r3slotEd(round.temp.signRound3Messages[j]))
+//@   requires [group-key-wellformed] round.key.EDDSAPub != nil && wfPoint(round.key.EDDSAPub)
+//@   requires [requested-length-fits-the-message] round.temp.fullBytesLen == 0 || (0 < round.temp.fullBytesLen && round.temp.fullBytesLen <= 1048576 && blen(be(val(round.temp.m))) <= round.temp.fullBytesLen)
+//@   modifies round.number, round.started, round.ok[*], round.data.R, round.data.S, round.data.Signature, round.data.M, sent(round.end)
+//@   ensures [C02.nothing-emitted-on-error] result != nil ==> sent(round.end) == old(sent(round.end))
+//@   ensures [C02.emitted-once] result == nil ==> sent(round.end) == old(sent(round.end)) + 1
+//@   ensures [C02.emitted-only-after-self-verification] result == nil ==> eddsaverify(round.Parameters.ec, px(round.key.EDDSAPub), py(round.key.EDDSAPub), bytes(round.data.M), val(round.temp.r), beint(bytes(round.data.S)))
+//@   ensures [C02.signature-is-64-bytes] result == nil ==> len(round.data.Signature) == 64
+//@   ensures [C02.message-echo] result == nil ==> ((round.temp.fullBytesLen == 0 ==> bytes(round.data.M) == be(val(round.temp.m))) && (round.temp.fullBytesLen != 0 ==> (len(round.data.M) == round.temp.fullBytesLen && bytes(round.data.M) == cat(zeros(round.temp.fullBytesLen - blen(be(val(round.temp.m)))), be(val(round.temp.m))))))
+//@   loop 0 invariant sumS != nil && (sumS == round.temp.si || fresh(sumS)) && round.started
+//@   loop 0 invariant sent(round.end) == old(sent(round.end))
